@@ -192,4 +192,42 @@ def findInv (s : Refs) (fuel : Nat) (b : Nat) (f : Filter) : Option (Option (Lis
     | none => none
   | none => some none
 
+/-- `References::insert(source, &[(node, type, direction)])`: an inverse entry flips the two nodes.
+`none` = the self reference panic of `insert_reference` -/
+def insertMany (s : Refs) (src : Nat) : List (Nat × Nat × Bool) → Option Refs
+  | [] => some s
+  | (node, t, inverse) :: rest =>
+    match (if inverse then insertRef s node src t else insertRef s src node t) with
+    | some s' => insertMany s' src rest
+    | none => none
+
+/-- `BrowseDirection` -/
+inductive Dir where
+  | forward | inverse | both | invalid
+deriving Repr, DecidableEq
+
+/-- `find_references_by_direction`: the references (forward ones first) and the index at which the
+inverse ones start; outer `none` = the subtype walk ran out of fuel -/
+def findByDirection (s : Refs) (fuel : Nat) (n : Nat) (d : Dir) (f : Filter) :
+    Option (List (Nat × Nat) × Nat) :=
+  match d with
+  | .forward => match findRefs s fuel n f with
+    | some r => some (r.getD [], (r.getD []).length)
+    | none => none
+  | .inverse => match findInv s fuel n f with
+    | some r => some (r.getD [], 0)
+    | none => none
+  | .both => match findRefs s fuel n f, findInv s fuel n f with
+    | some r1, some r2 => some (r1.getD [] ++ r2.getD [], (r1.getD []).length)
+    | _, _ => none
+  | .invalid => some ([], 0)
+
+def typeDefRef : Nat := 40
+
+/-- `get_type_id`: the target of the node's first HasTypeDefinition reference -/
+def getTypeId (s : Refs) (n : Nat) : Option Nat :=
+  match s.fwd.get n with
+  | some l => (l.find? (fun r => r.1 == typeDefRef)).map (fun r => r.2)
+  | none => none
+
 end OpcuaVerif.C28
